@@ -148,7 +148,7 @@ def asgRecv (a b : Ty) : Bool :=
   | .str => isStringFamily b
   | .bin => (match b with | .bin => true | _ => false)
   | .int r => (match b with | .int r' => r.sub r' | _ => false)
-  | .float lo hi => (match b with | .float lo' hi' => decide (lo ≤ lo') && decide (hi' ≤ hi) | _ => false)
+  | .float lo hi => (match b with | .float lo' hi' => decide (Fl.effLo lo ≤ Fl.effLo lo') && decide (Fl.effHi hi' ≤ Fl.effHi hi) | _ => false)
   | .bool v => (match b with | .bool v' => v.isNone || v == v' | _ => false)
   | .tspan r => (match b with | .tspan r' => r.sub r' | _ => false)
   | .strSz r =>
